@@ -400,7 +400,6 @@ Section Bitop.
   Qed.
 End Bitop.
 
-Definition is_logic (o : binop) : bool := match o with And | Or | Xor => true | _ => false end.
 Definition bitop (o : binop) : Z -> Z -> Z := match o with And => Z.land | Or => Z.lor | _ => Z.lxor end.
 
 Lemma bitop_concat o k alo ahi clo chi : is_logic o = true -> 0 <= k -> 0 <= alo < 2 ^ k -> 0 <= ahi -> 0 <= clo < 2 ^ k -> 0 <= chi ->
